@@ -113,3 +113,7 @@ func TestVerifC08Regressions(t *testing.T) {
 func TestVerifC02Composite(t *testing.T) {
 	vs.Run(t, "C02", func(c *vs.Case) error { return vw.PropC02(c, compositeFactory, "composite") })
 }
+
+func TestVerifC03Composite(t *testing.T) {
+	vs.Run(t, "C03", func(c *vs.Case) error { return vw.PropC03(c, compositeFactory, "composite") })
+}
